@@ -727,6 +727,10 @@ def _key_neutralised(ctx, fi: FuncInfo, name: str, at: ast.AST, key: str, blocke
         if isinstance(n, ast.Call) and isinstance(n.func, ast.Attribute) and isinstance(n.func.value, ast.Name) \
                 and n.func.value.id == name and n.func.attr in ("update", "setdefault", "__setitem__"):
             lit = n.args and isinstance(n.args[0], ast.Dict) and all(isinstance(k, ast.Constant) for k in n.args[0].keys)
+            if not lit and n.args and isinstance(n.args[0], ast.Name) and n.func.attr == "update":
+                # a local bound once to a closed dict display (its entries are judged by R2b where they are written)
+                binds_ = [v_ for v_ in assignments_to(fi.node, n.args[0].id)]
+                lit = len(binds_) == 1 and isinstance(binds_[0], ast.Dict) and all(isinstance(k, ast.Constant) for k in binds_[0].keys) and n.args[0].id not in fi.params()
             if not lit and not (n.func.attr == "setdefault" and n.args and isinstance(n.args[0], ast.Constant) and n.args[0].value != key):
                 return False, f"{name}.{n.func.attr}(...) with non-literal content may re-introduce the key"
         if isinstance(n, ast.AugAssign) and isinstance(n.target, ast.Name) and n.target.id == name:
@@ -970,19 +974,32 @@ def _r2c(ctx, carriers: dict[str, list[str]]) -> None:
                     r.ok("C16.R2c", q, f"{short(c, 100)}: callee from_dict implementation strips itself "
                                        f"({', '.join(sorted({prog.lookup_method(cq, 'from_dict').qual for cq in classes if prog.lookup_method(cq, 'from_dict')}))[:160]})",
                          f"{fi.module.relpath}:{c.lineno}")
-    # _base_args_from_dict returns a literal dict (closed key set)
+    # the keyword arguments an item constructor receives form a closed set without capability keys: both item loaders
+    # interpreted (sa.tabulate, ClassProxy) on a definition that sets every capability key itself, besides keys nobody knows
+    from ..tabulate import ClassProxy as _CPc, call_method as _cmc, Raised as _Rc
     b = prog.func("sigma.processing.pipeline.ProcessingItemBase._base_args_from_dict")
-    rets = [n for n in walk_no_nested(b.node) if isinstance(n, ast.Return)]
-    for rt in rets:
-        if isinstance(rt.value, ast.Dict) and all(isinstance(k, ast.Constant) for k in rt.value.keys):
-            keys = [k.value for k in rt.value.keys]
-            bad = [k for k in keys if k in CAP_FIELDS]
-            if bad:
-                r.violation("C16.R2c", b.qual, f"return dict with keys {bad}", "item constructor arguments contain capability keys", b.loc)
-            else:
-                r.ok("C16.R2c", b.qual, f"returns a literal dict with fixed keys {keys}", b.loc)
+    for item_cq in ("sigma.processing.pipeline.ProcessingItem", "sigma.processing.pipeline.QueryPostprocessingItem"):
+        fdq = prog.func(item_cq + ".from_dict")
+        built_c: dict = {}
+        doc_c = {"id": "x", "type": "t", "rule_conditions": [], "unknown_key": "FROM-DOCUMENT"}
+        doc_c.update({k_: "FROM-DOCUMENT" for k_ in CAP_FIELDS})
+        env_c = {"rule_conditions": {}, "detection_item_conditions": {}, "field_name_conditions": {}, "transformations": {}, "query_postprocessing_transformations": {},
+                 "parse_condition_expression": lambda t_: t_, "cast": lambda t_, v_: v_}
+        over_c = {"_parse_conditions": lambda mapping, defs: [], "_parse_condition_linking": lambda *a_, **k_: None, "_instantiate_transformation": lambda *a_, **k_: "TRANSFORMATION"}
+        klass_c = _CPc(prog, item_cq, env_c, ctor=lambda *a_, **k_: (built_c.update(k_), built_c.update({f"<positional {i_}>": v_ for i_, v_ in enumerate(a_)}), "ITEM")[2],
+                       interp_kwargs={"max_steps": 8000}, overrides=over_c)
+        try:
+            _cmc(prog, item_cq, "from_dict", klass_c, env_c, dict(doc_c), interp_kwargs={"max_steps": 8000})
+            leak = sorted(k_ for k_, v_ in built_c.items() if k_ in CAP_FIELDS or k_ == "unknown_key" or v_ == "FROM-DOCUMENT")
+            err_c = None
+        except _Rc as ex:
+            leak, err_c = [], str(ex)
+        if err_c is not None:
+            r.violation("C16.R2c", fdq.qual, "cls(**kwargs)", f"the item loader raises {err_c} on a definition with capability keys", fdq.loc)
+        elif leak or not built_c:
+            r.violation("C16.R2c", b.qual if item_cq.endswith("ProcessingItem") and not item_cq.endswith("QueryPostprocessingItem") else fdq.qual, f"return dict with keys {leak}", f"item constructor arguments contain capability keys or values taken from the document under unknown keys: {leak or 'nothing was built'}", b.loc)
         else:
-            r.violation("C16.R2c", b.qual, stmt_head(rt), "_base_args_from_dict no longer returns a literal dict; item kwargs are not a closed key set", b.loc)
+            r.ok("C16.R2c", fdq.qual, f"the item constructor receives the fixed keys {sorted(built_c)}: none is a capability, no document value under a capability or unknown key arrives (interpreted)", fdq.loc)
 
 
 # ------------------------------------------------------------------------------------------ R3
